@@ -67,6 +67,11 @@ def _scenarios():
     #     (seeded C12-h: an in-place growth stretched "the last free chunk" -- the hole -- over the live tail)
     out.append(("a ; b ; c fills exactly ; free b ; request larger than the hole (growth behind a live tail)", {}, [("alloc", x, False), ("alloc", y, False), ("alloc", C - x - y, False), ("free", 1), ("alloc", z, False), ("get_free",), ("alloc", y, False)],
                 [W(C=304, x=50, y=60, z=100, A=8), W(C=1024, x=120, y=130, z=400, A=16)], "x + y < C, y < z <= C"))
+    # 11. an EMPTY region: allocate(0) hands out the start of a free chunk without consuming it, so the next request gets
+    #     the same offset; giving the empty region back returns NO bytes -- the region living at that offset stays live
+    #     (seeded C04-h: a registry offset -> size let free(o, 0) release the live region that shares the offset)
+    out.append(("empty region ; a at the same offset ; free the empty region ; request that fits: not served over a", {}, [("alloc", K(0), False), ("alloc", x, False), ("free", 0), ("get_free",), ("alloc", y, False), ("get_free",)],
+                [W(C=512, x=40, y=30, A=8), W(C=4096, x=100, y=77, A=16)], "x + y < C, y <= x"))
     return out
 
 
@@ -145,7 +150,7 @@ def ah(cx):
         raise AnalysisError(f"{len(undecided)} allocator histories are not decided: {undecided[0]}")
     for u in undecided:
         cx.note(f_alloc, detail=f"history not decided: {u[:200]}")
-    cx.need(n_steps >= 150 or undecided, f"only {n_steps} history steps evaluated")
+    cx.need(n_steps >= 165 or undecided, f"only {n_steps} history steps evaluated")
 
 
 def _one(cx, m, f_alloc, klass, name, ctor_kw, steps, wits, cond):
